@@ -40,16 +40,21 @@
 //! Signatures are `<operation>/<failure class>:<input class>`. The input class
 //! is computed from the input alone (see `mk_case`, `in_class`):
 //! * `largest=week,smallest=day,inc>1` (non-zoned references) - F15;
-//! * `negative-span,calendar-smallest,exact-tie` - F14;
-//! * `zoned:reference-on-later-side-of-fold`, `zoned:r+span-on-later-side-of-fold`
-//!   (arithmetic: `(r+a)+b-...`, `r+a-...`) - the Zoned::until defects F8/F9
-//!   that Span::{round,total,checked_add} sit on; the options are not part of
-//!   the class because the defect is upstream of them;
-//! * otherwise `<sign>,smallest=<time|d|w|mo|y>,<none|marker|civil|zoned[:near-a-day-that-is-not-24h]>`
-//!   plus `,r+span-in-shadow-of-clamped-month-end` (r + n months is a clamped
-//!   date and r+span lies less than the clamped-away days after it) and
+//! * `smallest=week,largest>week,zoned` - W1 (weeks extrapolated from the
+//!   length of the first week);
+//! * `negative-span,calendar-smallest,exact-tie` - F14 (repaired; kept so a
+//!   regression is recognised);
+//! * otherwise `<sign>,smallest=<time|d|w|mo|y>,<ref>` with `<ref>` one of
+//!   `none`, `marker`, `civil`, `zoned`, `zoned:r+span-on-later-side-of-fold`,
+//!   and for time-unit smallest also `zoned:near-a-day-that-is-not-24h`,
+//!   `zoned:reference-on-later-side-of-fold`; plus the tags
+//!   `,r+span-in-shadow-of-clamped-month-end` (r + n months is a clamped date
+//!   and r+span lies less than the clamped-away days after it),
 //!   `,whole-units-of-smallest` (positive span, r+span a whole number of
-//!   `smallest` units from r).
+//!   `smallest` units from r) and `,within-1us-of-whole-units-of-smallest`.
+//! Neighbours relative to a zoned datetime follow Zoned::checked_add: a
+//! non-zero calendar displacement is resolved with "compatible", a zero one is
+//! r itself (which matters when r is on the later side of a fold).
 
 use jiff::civil::{Date, DateTime};
 use jiff::tz::AmbiguousOffset;
@@ -665,6 +670,8 @@ struct RoundCase<'a> {
     zfold: bool,
     /// E is a whole number of units u (u = d, w, mo, y) away from r
     whole: [bool; 10],
+    /// E is within a microsecond of, but not at, a whole number of units u from r
+    near_whole: [bool; 10],
     /// E lies in the "shadow" of a clamped month end: r + n months is a clamped
     /// date (day-of-month c days smaller than r's) and E is less than c days
     /// after it, so "n months and a bit" and "n-1 months and 30-odd days" are
@@ -712,19 +719,23 @@ fn in_class(c: &RoundCase, s: usize, eff_l: usize, inc: i64) -> String {
     if !zoned && eff_l == W && s == D && inc > 1 {
         return "largest=week,smallest=day,inc>1".into();
     }
-    if c.zfold {
-        // upstream defects of Zoned::until, independent of the rounding options
-        return c.zclass.into();
+    if zoned && s == W && eff_l > W {
+        // weeks are not uniform relative to a zoned datetime and the balanced
+        // form (months and days) has no week field to start from
+        return "smallest=week,largest>week,zoned".into();
     }
     let sc = if s < D { "time" } else { UN[s] };
     // the length of the days near r+span only matters to the time-unit path
-    let zc = if s >= D && c.zclass.starts_with("zoned") { "zoned" } else { c.zclass };
+    let zc = if s >= D && c.zclass.starts_with("zoned") && c.zclass != "zoned:r+span-on-later-side-of-fold" { "zoned" } else { c.zclass };
     let mut out = format!("{},smallest={},{}", if c.sign < 0 { "negative-span" } else { "positive-span" }, sc, zc);
     if c.shadow && eff_l >= MO && s <= MO {
         out.push_str(",r+span-in-shadow-of-clamped-month-end");
     }
     if c.sign > 0 && s >= D && s != W && c.whole[s] {
         out.push_str(",whole-units-of-smallest");
+    }
+    if s >= D && c.near_whole[s] && !out.contains("shadow") {
+        out.push_str(",within-1us-of-whole-units-of-smallest");
     }
     out
 }
@@ -771,8 +782,6 @@ fn round_one(r: &Report, sec: &str, c: &RoundCase, s: usize, l: Option<usize>, i
             lc.add("panic");
             let cls = if s >= D && inc <= 0 {
                 format!("calendar-unit,{}", if inc == 0 { "inc=0" } else { "inc<0" })
-            } else if c.zfold {
-                c.zclass.to_string()
             } else {
                 in_class(c, s, eff_l, inc)
             };
@@ -924,8 +933,15 @@ fn neighbour(r: &Report, rf: &Rf, rz: Option<&Zoned>, rp: i128, g: &Sp, s: usize
     if step.unsigned_abs() > LIMITS[D] as u64 {
         return None;
     }
+    // Zoned::checked_add re-resolves the civil result with "compatible"
+    // whenever calendar units are involved (documented, C06) - except that
+    // adding nothing is r itself: the neighbour whose civil datetime is r's
+    // own is r, not the other instant of a fold r may lie in.
     let got = guard(|| -> Result<Zoned, jiff::Error> {
         let dt = z.datetime().checked_add(cal)?.checked_add(Span::new().try_days(step)?)?;
+        if dt == z.datetime() {
+            return Ok(z.clone());
+        }
         z.time_zone().to_zoned(dt)
     });
     match got {
@@ -1013,12 +1029,12 @@ fn check_neighbour(r: &Report, sec: &str, c: &RoundCase, s: usize, eff_l: usize,
     }
     lc.add("wrong_neighbour");
     let t = if tie { "exact-tie" } else { "off-tie" };
-    let f14 = c.sign < 0 && s >= D && tie && !c.zfold;
+    let w1 = matches!(rf.k, RfK::Zoned(..)) && s == W && eff_l > W;
+    let f14 = c.sign < 0 && s >= D && tie && !w1;
     let f15 = !matches!(rf.k, RfK::Zoned(..)) && eff_l == W && s == D && inc > 1;
     let class = match (f14, f15) {
+        (_, true) => format!("{},{}", cls, t),
         (true, false) => "negative-span,calendar-smallest,exact-tie".to_string(),
-        (true, true) => "negative-span,calendar-smallest,exact-tie+largest=week,smallest=day,inc>1".to_string(),
-        (false, true) => format!("{},{}", cls, t),
         _ => cls,
     };
     r.viol(
@@ -1061,45 +1077,45 @@ fn mk_case<'a>(r: &Report, rf: &'a Rf, f: &'a Sp) -> RoundCase<'a> {
     let sign = sp_sign(f);
     let mut zfold = false;
     let mut whole = [false; 10];
+    let mut near_whole = [false; 10];
     let mut shadow = false;
     let (e, zclass) = match &rf.k {
         RfK::Zoned(z0) => {
             let ez = rf.zpoint(r, f);
             let e = ez.as_ref().map(|z| conv::ts_ns(z.timestamp()));
             let e_later = ez.as_ref().map(later_side_of_fold).unwrap_or(false);
-            let zc = if rf.r_later {
-                zfold = true;
-                "zoned:reference-on-later-side-of-fold"
-            } else if e_later {
-                zfold = true;
-                "zoned:r+span-on-later-side-of-fold"
-            } else {
-                // is the civil day that contains E (counted in whole days from r), or the one before it, not 24 hours long?
-                let mut irregular = false;
-                if let Some(e) = e {
-                    if let Some((p, q)) = total_model(r, rf, D, origin, e) {
-                        let n = p.abs() / q;
-                        let s = if p < 0 { -1 } else { 1 };
-                        let pt = |k: i128| {
-                            let mut g = [0; 10];
-                            g[D] = (s * k) as i64;
-                            rf.point(r, &g)
-                        };
-                        for k in [n - 1, n] {
-                            if k >= 0 {
-                                if let (Some(a), Some(b)) = (pt(k), pt(k + 1)) {
-                                    irregular |= (b - a).abs() != DAY_NS;
-                                }
+            zfold = rf.r_later || e_later;
+            // is the civil day that contains E (counted in whole days from r), or the one before it, not 24 hours long?
+            let mut irregular = false;
+            if let Some(e) = e {
+                if let Some((p, q)) = total_model(r, rf, D, origin, e) {
+                    let n = p.abs() / q;
+                    let s = if p < 0 { -1 } else { 1 };
+                    let pt = |k: i128| {
+                        let mut g = [0; 10];
+                        g[D] = (s * k) as i64;
+                        rf.point(r, &g)
+                    };
+                    for k in [n - 1, n] {
+                        if k >= 0 {
+                            if let (Some(a), Some(b)) = (pt(k), pt(k + 1)) {
+                                irregular |= (b - a).abs() != DAY_NS;
                             }
                         }
                     }
                 }
-                let _ = z0;
-                if irregular {
-                    "zoned:near-a-day-that-is-not-24h"
-                } else {
-                    "zoned"
-                }
+            }
+            let _ = z0;
+            // civil order and instant order differ only inside a fold, so
+            // the later side of a fold at r+span comes first
+            let zc = if e_later {
+                "zoned:r+span-on-later-side-of-fold"
+            } else if irregular {
+                "zoned:near-a-day-that-is-not-24h"
+            } else if rf.r_later {
+                "zoned:reference-on-later-side-of-fold"
+            } else {
+                "zoned"
             };
             (e, zc)
         }
@@ -1109,6 +1125,8 @@ fn mk_case<'a>(r: &Report, rf: &'a Rf, f: &'a Sp) -> RoundCase<'a> {
         for u in D..=Y {
             if let Some((p, q)) = total_model(r, rf, u, origin, e) {
                 whole[u] = p % q == 0;
+                let rem = p.abs() % q;
+                near_whole[u] = rem != 0 && (rem <= 1_000 || q - rem <= 1_000);
                 if u == MO && sign > 0 && p / q >= 1 {
                     let n = p / q;
                     let mut g = [0; 10];
@@ -1128,7 +1146,7 @@ fn mk_case<'a>(r: &Report, rf: &'a Rf, f: &'a Sp) -> RoundCase<'a> {
             }
         }
     }
-    RoundCase { rf, f, span, own: own_largest(f), sign, origin, e, zclass, zfold, whole, shadow }
+    RoundCase { rf, f, span, own: own_largest(f), sign, origin, e, zclass, zfold, whole, near_whole, shadow }
 }
 
 /// replay: only the (reference, span) named in `--only-case` needs to be run
@@ -1165,10 +1183,6 @@ fn section_bad_increment(r: &Report, refs: &[&Rf], pool: &[Sp]) {
             return;
         }
         let c = mk_case(r, rf, f);
-        if c.zfold {
-            // Zoned::until defects F8/F9 are reported by the other sections
-            return;
-        }
         let mut lc = Loc::default();
         let mut n = 0;
         for s in 0..10 {
@@ -1300,11 +1314,7 @@ fn section_total(r: &Report, sec: &str, refs: &[Rf], pool: &[Sp]) {
         for u in 0..10 {
             let cs = || format!("{} span={} ref={} unit={}", sec, fmt_sp(f), rf.name, UN[u]);
             let cls = || {
-                if c.zfold {
-                    c.zclass.to_string()
-                } else {
-                    format!("unit={},{}{}", UN[u], c.zclass, if c.shadow && u >= MO { ",r+span-in-shadow-of-clamped-month-end" } else { "" })
-                }
+                format!("unit={},{}{}", UN[u], c.zclass, if c.shadow && u >= MO { ",r+span-in-shadow-of-clamped-month-end" } else { "" })
             };
             let got = guard(|| match rf.rel() {
                 Some(rel) => c.span.total((UNITS[u], rel)),
@@ -1355,8 +1365,6 @@ fn section_total(r: &Report, sec: &str, refs: &[Rf], pool: &[Sp]) {
                         lc.add("wrong");
                         let sig = if c.sign == 0 {
                             "Span::total/value:zero-span".to_string()
-                        } else if c.zfold {
-                            format!("Span::total/value:{}", c.zclass)
                         } else {
                             format!("Span::total/value:{},{}", if c.sign < 0 { "negative-span" } else { "positive-span" }, cls())
                         };
@@ -1591,7 +1599,7 @@ fn main() {
     r.section("round_bad_increment", || {
         let some: Vec<Sp> = sub.iter().copied().take(41).collect();
         section_bad_increment(&r, &crefs.iter().collect::<Vec<_>>(), &some);
-        let zsome: Vec<&Rf> = zrefs.iter().filter(|x| !x.r_later).take(12).collect();
+        let zsome: Vec<&Rf> = zrefs.iter().take(14).collect();
         section_bad_increment(&r, &zsome, &some);
     });
     r.section("total", || section_total(&r, "total", &crefs, &pool));
